@@ -266,6 +266,13 @@ func genFrame(rt *rapid.T, label string, frames []string, allowAbsent bool, big 
 	if allowAbsent && rapid.IntRange(0, 7).Draw(rt, label+".absent") == 0 {
 		v.F[ts.DynIndex()].O = nil
 		feat.Absent++
+	} else if rapid.IntRange(0, 11).Draw(rt, label+".envelope") == 0 {
+		// an envelope: another whole frame (with its own computed length) is the body of this one
+		inner := rapid.SampledFrom(lenFrames).Draw(rt, label+".inner")
+		io := DefaultOpts(Arbitrary)
+		io.NoAbsent, io.BigProb, io.MaxList, io.HugeProb = true, 0, 40, 0
+		v.F[ts.DynIndex()].O, _ = GenValue(rt, inner, io)
+		feat.Mismatch++
 	}
 	return v, feat
 }
